@@ -3,9 +3,11 @@ from __future__ import annotations
 
 import ast
 
-from ..flow import call_name, dotted, norm
+from .. import lib, shape
+from ..flow import Defs, call_name, norm
 from ..index import AnalysisError, walk_local
-from ..lib import cfg_of, defs_of, edge_leads_only_to_raise, live, nodes_with, undominated, witness
+from ..lib import cfg_of, defs_of, edge_leads_only_to_raise, live, nodes_with, witness
+from .C07 import _flow_into, _m, _reaches, _rm, exponent_sign_sets, plus_minus_sign_rewritten
 from .C09 import interface_rule
 
 MO = "pint.facets.measurement.objects"
@@ -26,35 +28,58 @@ EXPLANATION = (
 EXPLANATION += ' Also decided (rules added after the second round of seeded changes): token conservation and look-ahead offset agreement of the uncertainty tokenizer; to_compact chooses the prefix from the (nominal) magnitude in the unprefixed unit.'
 
 
+def _lt_zero(a, text=None):
+    """`a` is `<e> < 0` or `0 > <e>`; returns the text of <e> (None if `a` has another shape or `text` is given and differs)."""
+    b = _m(a, "_E < 0", "0 > _E")
+    return b["_E"] if b is not None and (text is None or b["_E"] == text) else None
+
+
 def run(ck, ix, tier):
     # ------------------------------------------------------------ Measurement.__new__
     f = ix.func(MO, "Measurement.__new__")
     ck.analysed(f)
+    fn = f.node
     cfg, defs = cfg_of(f), defs_of(f)
+    # candidates by role: the ufloat(...) calls; the standard deviation = their second argument, whatever it is called
+    ufc = [c for c in walk_local(fn) if isinstance(c, ast.Call) and call_name(c) == "ufloat"]
     uf = nodes_with(cfg, lambda x: isinstance(x, ast.Call) and call_name(x) == "ufloat")
-    gate = [n.id for n in cfg.nodes if n.kind == "test" and norm(n.ast).replace(" ", "") in ("error<0", "0>error")]
-    ck.check(bool(gate), "G-DOM", "Measurement.__new__|negative-error-tested", f.loc(), "negative errors are tested", "the `error < 0` test is gone: negative uncertainties are accepted")
+    sds = {norm(c.args[1]) for c in ufc if len(c.args) == 2}
+    # the gate: edges on which `<std dev> < 0` is known to be false (`if e < 0: raise`, `if not e < 0: ... else: raise`, ...)
+    negative = lambda a: _lt_zero(a) is not None and _lt_zero(a) in sds
+    tested = [n.id for n in cfg.nodes if n.kind == "test" and any(negative(a) for a, _ in list(shape.conjuncts(n.ast, "t")) + list(shape.conjuncts(n.ast, "f")))]
+    safe = shape.guard_edges(cfg, negative, want=False)
+    ck.check(bool(safe), "G-DOM", "Measurement.__new__|negative-error-tested", f.loc(), "negative errors are tested", "the `error < 0` test is gone: negative uncertainties are accepted")
+    # ufloat(<the value>, <something that is the error, possibly converted: derives from `error`, no arithmetic on it>)
+    well_formed = lambda c: len(c.args) == 2 and not c.keywords and norm(shape.unalias(c.args[0], fn)) == "value" and "error" in defs.roots(c.args[1]) \
+        and (isinstance(c.args[1], ast.Name) or _m(c.args[1], "_X.to(units).magnitude") is not None)
     for u in live(cfg, uf):
-        p = undominated(cfg, [u], gate)
-        ck.check(bool(gate) and p is None, "G-DOM", "Measurement.__new__|gate-dominates-ufloat", f.loc(cfg.nodes[u].ast), "ufloat(value, error) only after the negative-error test", "ufloat(value, error) is reachable without the negative-error test", witness(cfg, p))
         c = [c for c in ast.walk(cfg.nodes[u].ast) if isinstance(c, ast.Call) and call_name(c) == "ufloat"][0]
-        ck.check([norm(a) for a in c.args] == ["value", "error"], "G-PROV", "Measurement.__new__|ufloat(value, error)", f.loc(c), "nominal value and standard deviation in this order", f"`{norm(c)}` does not build ufloat(value, error)")
-    for g in gate:
-        p = edge_leads_only_to_raise(cfg, g, "t", also_forbid=uf)
+        mine = [(t, lab) for (t, lab) in safe if len(c.args) == 2 and any(_lt_zero(a, norm(c.args[1])) for a, truth in shape.conjuncts(cfg.nodes[t].ast, lab) if not truth)]
+        p = shape.reachable_without(cfg, [u], mine) if mine else [u]
+        ck.check(bool(mine) and p is None, "G-DOM", "Measurement.__new__|gate-dominates-ufloat", f.loc(cfg.nodes[u].ast), "ufloat(value, error) only after the negative-error test", "ufloat(value, error) is reachable without the negative-error test", witness(cfg, p))
+        ok = well_formed(c)
+        ck.check(ok, "G-PROV", "Measurement.__new__|ufloat(value, error)", f.loc(c), "nominal value and standard deviation in this order", f"`{norm(c)}` does not build ufloat(value, error)")
+    for (g, lab) in sorted(set(safe)):
+        p = edge_leads_only_to_raise(cfg, g, shape.other(lab), also_forbid=uf)
         ck.check(p is None, "G-DOM", "Measurement.__new__|negative-error-raises", f.loc(cfg.nodes[g].ast), "a negative error raises ValueError", "a negative error does not raise", witness(cfg, p))
-    conv = [a for a in walk_local(f.node) if isinstance(a, ast.Assign) and norm(a.targets[0]) == "error" and "to(" in norm(a.value)]
-    ok = len(conv) == 1 and norm(conv[0].value) == "error.to(units).magnitude"
-    ck.check(ok, "G-TAG", "Measurement.__new__|quantity-error-converted-to-value-units", f.loc(), "a Quantity error is converted to the value's units", "a Quantity error is no longer converted to the units of the value before being combined")
+    # a Quantity error is converted to the units of the value: `<error>.to(units).magnitude` flows into the standard deviation
+    sd_sinks = [c.args[1] for c in ufc if len(c.args) == 2]
+    sd_flow = _flow_into(fn, sd_sinks)
+    conv = []
+    for x in walk_local(fn):
+        b = _m(x, "_X.to(units).magnitude") if isinstance(x, ast.Attribute) else None
+        if b is not None and "error" in defs.roots(x.value.func.value) and _reaches(x, fn, sd_sinks, sd_flow):
+            conv.append(x)
+    ck.check(len(conv) == 1, "G-TAG", "Measurement.__new__|quantity-error-converted-to-value-units", f.loc(), "a Quantity error is converted to the value's units", "a Quantity error is no longer converted to the units of the value before being combined")
     if conv:
-        cn = cfg.nodes_for_ast(conv[0])
-        for g in gate:
-            p = undominated(cfg, [g], cn)
-            # the conversion (inside try) precedes the gate on every path where error is a Quantity; structural: it lies before the gate in source
-            ck.check(conv[0].lineno < cfg.nodes[g].lineno, "G-DOM", "Measurement.__new__|conversion-before-gate", f.loc(conv[0]), "error converted before it is tested and used", "the error is tested/used before it was converted to the value's units")
+        cn = set(cfg.nodes_for_ast(conv[0]))
+        for g in sorted({g for g, _ in safe} or set(tested)):
+            # the conversion is never executed after the test: the value that is tested is the converted one
+            after = cfg.reach([v for (v, _l) in cfg.succ[g]])
+            ck.check(not (cn & after), "G-DOM", "Measurement.__new__|conversion-before-gate", f.loc(conv[0]), "error converted before it is tested and used", "the error is tested/used before it was converted to the value's units")
     # the object is built by super().__new__(cls, <mag>, units): <mag> is the value itself exactly when no error was given
     # (an uncertain magnitude is kept: same random variable) and ufloat(value, error) otherwise - one call or two
-    from .. import shape
-    sup = [c for c in walk_local(f.node) if isinstance(c, ast.Call) and isinstance(c.func, ast.Attribute) and c.func.attr == "__new__" and isinstance(c.func.value, ast.Call) and call_name(c.func.value) == "super"]
+    sup = [c for c in walk_local(fn) if isinstance(c, ast.Call) and isinstance(c.func, ast.Attribute) and c.func.attr == "__new__" and isinstance(c.func.value, ast.Call) and call_name(c.func.value) == "super"]
     ck.check(len(sup) >= 1 and all(len(c.args) == 3 and norm(c.args[0]) == "cls" for c in sup), "G-TAG", "Measurement.__new__|built-by-PlainQuantity.__new__", f.loc(), "super().__new__(cls, mag, units)", "the Measurement is no longer built by super().__new__(cls, magnitude, units)")
     missing = lambda a_: isinstance(a_, ast.Compare) and isinstance(a_.ops[0], ast.Is) and sorted([norm(a_.left), norm(a_.comparators[0])]) == ["MISSING", "error"]
     vals = []
@@ -62,55 +87,63 @@ def run(ck, ix, tier):
         magx, unitx = c.args[1], c.args[2]
         ck.check(norm(unitx) == "units", "G-TAG", "Measurement.__new__|built-with-given-units", f.loc(c), "the units passed in / unpacked from the value", f"the Measurement is built with units `{norm(unitx)}`")
         if isinstance(magx, ast.Name) and magx.id not in defs.params and defs.defs.get(magx.id):
-            vals += [(norm(v), st) for (v, kind, st) in defs.defs[magx.id] if v is not None]
+            vals += [(v, st) for (v, kind, st) in defs.defs[magx.id] if v is not None]
         else:
-            vals.append((norm(magx), c))
-    texts = sorted({v for v, _ in vals})
+            vals.append((magx, c))
+    kind_of = lambda v: "value" if norm(v) == "value" else ("ufloat(value, error)" if isinstance(v, ast.Call) and call_name(v) == "ufloat" and well_formed(v) else norm(v))
+    texts = sorted({kind_of(v) for v, _ in vals})
     ck.check(texts == ["ufloat(value, error)", "value"], "G-PROV", "Measurement.__new__|magnitude-is-value-or-ufloat(value,error)", f.loc(sup[0]) if sup else f.loc(), "magnitude = value (already uncertain) | ufloat(value, error)",
              f"the magnitude of the new Measurement is one of {texts}: an uncertain magnitude passed without error must be kept as is (same random variable, so correlations survive: x - x == 0 +/- 0) and otherwise ufloat(value, error) is built")
     for v, st in vals:
-        want = (v == "value")
-        if v in ("value", "ufloat(value, error)"):
-            ck.check(shape.holds_at(st, f.node, missing, want), "G-DOM", "Measurement.__new__|value-kept-only-when-no-error-given", f.loc(st), "value kept as magnitude exactly when no error was given",
+        k = kind_of(v)
+        if k in ("value", "ufloat(value, error)"):
+            ck.check(shape.holds_at(st, fn, missing, k == "value"), "G-DOM", "Measurement.__new__|value-kept-only-when-no-error-given", f.loc(st), "value kept as magnitude exactly when no error was given",
                      "the value is used as magnitude although an error was given (the error would be dropped), or an uncertainty is built although none was given")
-    unp = [a for a in walk_local(f.node) if isinstance(a, ast.Assign) and isinstance(a.targets[0], ast.Tuple) and [norm(e) for e in a.targets[0].elts] == ["value", "units"]]
+    unp = [a for a in walk_local(fn) if isinstance(a, ast.Assign) and isinstance(a.targets[0], ast.Tuple) and [norm(e) for e in a.targets[0].elts] == ["value", "units"]]
     ok = len(unp) == 1 and isinstance(unp[0].value, ast.Tuple) and [norm(e) for e in unp[0].value.elts] == ["value.magnitude", "value.units"]
     ck.check(ok, "G-TAG", "Measurement.__new__|quantity-value-unpacked", f.loc(), "a Quantity value is unpacked into magnitude and units", "a Quantity value is no longer unpacked into (magnitude, units)")
 
     # ------------------------------------------------------------ plus_minus
     f = ix.func(MO, "MeasurementQuantity.plus_minus")
     ck.analysed(f)
+    fn = f.node
     dfp = defs_of(f)
     is_q = lambda a_: isinstance(a_, ast.Call) and call_name(a_) == "isinstance" and a_.args and norm(a_.args[0]) == "error"
     is_rel = lambda a_: isinstance(a_, ast.Name) and a_.id == "relative"
-    convs = [x for x in walk_local(f.node) if isinstance(x, ast.Attribute) and x.attr == "magnitude" and norm(x.value) == "error.to(self._units)"]
-    ck.check(len(convs) == 1 and shape.holds_at(convs[0], f.node, is_q, True) and isinstance(getattr(convs[0], "_parent", None), ast.Assign), "G-TAG", "plus_minus|quantity-error-converted-to-own-units", f.loc(), "a Quantity error is converted to the quantity's units", "plus_minus no longer converts a Quantity error to the quantity's own units")
-    prods = [b_ for b_ in walk_local(f.node) if isinstance(b_, ast.BinOp) and isinstance(b_.op, ast.Mult) and "error" in (norm(b_.left), norm(b_.right))]
-    okp = len(prods) == 1 and sorted([norm(prods[0].left), norm(prods[0].right)]) == ["abs(self.magnitude)", "error"] and isinstance(getattr(prods[0], "_parent", None), ast.Assign) \
-        and shape.holds_at(prods[0], f.node, is_rel, True) and shape.holds_at(prods[0], f.node, is_q, False)
+    mc = [c for c in walk_local(fn) if isinstance(c, ast.Call) and call_name(c) == "Measurement"]
+    err_sinks = [c.args[1] for c in mc if len(c.args) == 3]
+    err_flow = _flow_into(fn, err_sinks)
+    used = lambda x: _reaches(x, fn, err_sinks, err_flow)             # the value becomes (part of) the error of the new Measurement
+    convs = [x for x in walk_local(fn) if isinstance(x, ast.Attribute) and _m(x, "error.to(self._units).magnitude", "error.to(self.units).magnitude") is not None]
+    ck.check(len(convs) == 1 and shape.holds_at(convs[0], fn, is_q, True) and used(convs[0]), "G-TAG", "plus_minus|quantity-error-converted-to-own-units", f.loc(), "a Quantity error is converted to the quantity's units", "plus_minus no longer converts a Quantity error to the quantity's own units")
+    prods = [b_ for b_ in walk_local(fn) if isinstance(b_, ast.BinOp) and isinstance(b_.op, ast.Mult) and "error" in (norm(b_.left), norm(b_.right))]
+    okp = len(prods) == 1 and sorted([norm(prods[0].left), norm(prods[0].right)]) == ["abs(self.magnitude)", "error"] and used(prods[0]) and not isinstance(getattr(prods[0], "_parent", None), (ast.Call, ast.BinOp, ast.UnaryOp)) \
+        and shape.holds_at(prods[0], fn, is_rel, True) and shape.holds_at(prods[0], fn, is_q, False)
     ck.check(okp, "G-PROV", "plus_minus|relative-error-scaled-by-abs-magnitude", f.loc(prods[0]) if prods else f.loc(), "relative error x |magnitude| (the sign of the error is preserved for the negative-error gate)",
              f"`{norm(getattr(prods[0], '_parent', prods[0])) if prods else '?'}`: a relative (non-Quantity) error must be multiplied by abs(magnitude) only; taking abs() of the product hides a negative relative error from the negative-error check")
-    raises = [r for r in walk_local(f.node) if isinstance(r, ast.Raise)]
-    ck.check(len(raises) >= 1 and all(shape.holds_at(r, f.node, is_q, True) and shape.holds_at(r, f.node, is_rel, True) for r in raises), "G-DOM", "plus_minus|quantity-as-relative-error-raises", f.loc(), "a Quantity cannot be a relative error", "a Quantity passed as relative error no longer raises (exactly in that case)")
-    mc = [c for c in walk_local(f.node) if isinstance(c, ast.Call) and call_name(c) == "Measurement"]
+    raises = [r for r in walk_local(fn) if isinstance(r, ast.Raise)]
+    ck.check(len(raises) >= 1 and all(shape.holds_at(r, fn, is_q, True) and shape.holds_at(r, fn, is_rel, True) for r in raises), "G-DOM", "plus_minus|quantity-as-relative-error-raises", f.loc(), "a Quantity cannot be a relative error", "a Quantity passed as relative error no longer raises (exactly in that case)")
     ok = len(mc) == 1 and len(mc[0].args) == 3 and norm(mc[0].args[2]) in ("self._units", "self.units") \
         and dfp.roots(mc[0].args[0]) & {"self.magnitude", "self._magnitude", "self.m"} and not any(isinstance(x, ast.BinOp) for x in ast.walk(mc[0].args[0]))
     if ok:
         e_ = mc[0].args[1]
         evals = {norm(v) for (v, k, st) in dfp.defs.get(e_.id, []) if v is not None} if isinstance(e_, ast.Name) else {norm(e_)}
-        ok = isinstance(e_, ast.Name) and evals <= {"error", "error.to(self._units).magnitude", "error * abs(self.magnitude)", "abs(self.magnitude) * error"}
+        ok = isinstance(e_, ast.Name) and evals <= {"error", "error.to(self._units).magnitude", "error.to(self.units).magnitude", "error * abs(self.magnitude)", "abs(self.magnitude) * error"}
     ck.check(bool(ok), "G-TAG", "plus_minus|measurement-in-own-units", f.loc(mc[0]) if mc else f.loc(), "Measurement(own magnitude, error, own units)", f"plus_minus builds `{norm(mc[0]) if mc else '?'}` instead of Measurement(own magnitude, (converted/scaled) error, own units)")
     ci = ix.cls(MO, "Measurement")
     for prop, frag in (("value", "self._REGISTRY.Quantity(self.magnitude.nominal_value, self.units)"), ("error", "self._REGISTRY.Quantity(self.magnitude.std_dev, self.units)"), ("rel", "abs(self.magnitude.std_dev / self.magnitude.nominal_value)")):
         m = ci.methods.get(prop)
-        rets = [norm(r.value) for r in walk_local(m.node) if isinstance(r, ast.Return) and r.value is not None] if m else []
-        ck.check(rets == [frag], "G-PROV", f"Measurement.{prop}", m.loc() if m else ci.module.relpath, frag, f"Measurement.{prop} is no longer `{frag}`")
+        rets = shape.returns_of(m.node) if m else []
+        ck.check(bool(rets) and all(_rm(r.value, m.node, frag) is not None for r in rets), "G-PROV", f"Measurement.{prop}", m.loc() if m else ci.module.relpath, frag, f"Measurement.{prop} is no longer `{frag}`")
     m = ci.methods.get("__format__")
-    ck.check(m is not None and "self._REGISTRY.formatter.format_measurement(self, spec)" in norm(m.node), "G-PROV", "Measurement.__format__|delegates", m.loc() if m else ci.module.relpath, "delegates to format_measurement", "Measurement.__format__ no longer delegates to the registry formatter's format_measurement")
-    # _to_magnitude
+    rets = shape.returns_of(m.node) if m else []
+    ck.check(bool(rets) and all(_rm(r.value, m.node, "self._REGISTRY.formatter.format_measurement(self, spec)") is not None for r in rets), "G-PROV", "Measurement.__format__|delegates", m.loc() if m else ci.module.relpath, "delegates to format_measurement", "Measurement.__format__ no longer delegates to the registry formatter's format_measurement")
+    # _to_magnitude: where the value is known to be a Measurement, ufloat(value.value, value.error) is returned
     cm = ix.module("pint.compat")
     tm = [g for g in cm.all_functions if g.name == "_to_magnitude"]
-    ck.check(bool(tm) and all("return ufloat(value.value, value.error)" in norm(g.node) for g in tm), "G-PROV", "_to_magnitude|measurement-to-ufloat", cm.relpath, "a Measurement magnitude becomes ufloat(value, error)", "_to_magnitude no longer maps a Measurement to ufloat(value, error)")
+    is_meas = lambda a_: _m(a_, "isinstance(value, Measurement)") is not None
+    as_ufloat = lambda g: any(_rm(r.value, g.node, "ufloat(value.value, value.error)") is not None and shape.holds_at(r, g.node, is_meas, True) for r in shape.returns_of(g.node))
+    ck.check(bool(tm) and all(as_ufloat(g) for g in tm), "G-PROV", "_to_magnitude|measurement-to-ufloat", cm.relpath, "a Measurement magnitude becomes ufloat(value, error)", "_to_magnitude no longer maps a Measurement to ufloat(value, error)")
 
     # ------------------------------------------------------------ operator table
     pe = ix.module(PE)
@@ -129,30 +162,45 @@ def run(ck, ix, tier):
     if ae is None:
         raise AnalysisError("_apply_e_notation not found")
     cfg = cfg_of(ae)
-    # the set of conditions under which the exponent is skipped, however they are spelled (two ifs, one `or`, ...)
-    tests = sorted({norm(a) for n in cfg.nodes if n.kind == "test" for a in ast.walk(n.ast) if isinstance(a, (ast.Compare, ast.Call)) and not any(a is not b and isinstance(b, (ast.Compare,)) and a in ast.walk(b) for b in ast.walk(n.ast))})
+    # the set of conditions under which the exponent is skipped, however they are spelled (two ifs, one `or`, operand order, ...)
+    def canon(a):
+        if isinstance(a, ast.Compare) and len(a.ops) == 1 and isinstance(a.ops[0], ast.Eq) and isinstance(a.left, ast.Constant) and not isinstance(a.comparators[0], ast.Constant):
+            return f"{norm(a.comparators[0])} == {norm(a.left)}"
+        return norm(a)
+    tests = sorted({canon(a) for n in cfg.nodes if n.kind == "test" for lab in ("t", "f") for a, _ in shape.conjuncts(n.ast, lab) if not isinstance(a, ast.BoolOp)})
     ck.check(tests == ["float(mantissa.string) == 0.0", "mantissa.string == 'nan'"], "G-PROV", "_apply_e_notation|exponent-skipped-only-for-nan-and-zero", ae.loc(),
              "the common exponent is skipped only for nan and for a mantissa equal to zero", f"the guards of _apply_e_notation are {tests}: a mantissa like 0.030 must receive the common exponent (only nan and zero are exempt)")
-    ck.check("string=f'{mantissa.string}{exponent.string}'" in norm(ae.node), "G-PROV", "_apply_e_notation|mantissa-followed-by-exponent", ae.loc(), "token text = mantissa + exponent", "the combined token is no longer mantissa followed by exponent")
+    ck.check(lib.has(ix, ae, "tokenize.TokenInfo(string=f'{mantissa.string}{exponent.string}', **_K)"), "G-PROV", "_apply_e_notation|mantissa-followed-by-exponent", ae.loc(), "token text = mantissa + exponent", "the combined token is no longer mantissa followed by exponent")
     fe = helpers.get("_finalize_e")
-    src = norm(fe.node)
-    ck.check("nominal_value = _apply_e_notation(nominal_value, possible_e)" in src and "std_dev = _apply_e_notation(std_dev, possible_e)" in src, "G-TWIN", "_finalize_e|exponent-applied-to-value-and-error", fe.loc(), "the common exponent is applied to both value and error", "the common exponent is not applied to both the nominal value and the standard deviation")
-    sets = {}
-    for name in ("_get_possible_e", "_finalize_e"):
-        g = helpers.get(name)
-        for c in walk_local(g.node):
-            if isinstance(c, ast.Compare) and isinstance(c.ops[0], (ast.In, ast.Eq)) and isinstance(c.comparators[0], (ast.List, ast.Tuple, ast.Constant)):
-                comp = c.comparators[0]
-                vals = sorted(e.value for e in comp.elts) if not isinstance(comp, ast.Constant) else [comp.value]
-                if vals and set(vals) <= {"+", "-"}:
-                    sets.setdefault(name, []).append(vals)
+    # what _finalize_e returns is (value with the exponent applied, error with the same exponent applied)
+    rets = shape.returns_of(fe.node)
+    ck.check(bool(rets) and all(_rm(r.value, fe.node, "(_apply_e_notation(nominal_value, possible_e), _apply_e_notation(std_dev, possible_e))") is not None for r in rets), "G-TWIN", "_finalize_e|exponent-applied-to-value-and-error", fe.loc(), "the common exponent is applied to both value and error", "the common exponent is not applied to both the nominal value and the standard deviation")
+    sets = exponent_sign_sets(ix)
     ok = all(v == ["+", "-"] for vs in sets.values() for v in vs) and len(sets) == 2
     ck.check(ok, "G-TWIN", "uncertainty_tokenizer|exponent-sign-sets-agree", tok.loc(), "look-ahead and consumer accept {+, -}", f"sign sets differ: {sets}")
-    src = norm(tok.node)
-    ck.check("input_string.replace('±', '+/-')" in src, "G-TABLE", "uncertainty_tokenizer|unicode-plus-minus", tok.loc(), "± rewritten to +/-", "± is no longer rewritten to +/-")
-    ck.check("string='+/-'" in src and src.count("yield plus_minus_op") >= 3, "G-TABLE", "uncertainty_tokenizer|emits-plus-minus-operator", tok.loc(), "all three notations emit the +/- operator token", "a notation no longer emits the '+/-' operator token")
-    ck.check("yield nominal_value\n" in src.replace("            ", "") or src.count("yield nominal_value") >= 2, "G-PROV", "uncertainty_tokenizer|value-operator-error-order", tok.loc(), "tokens are emitted as value, +/-, error", "the emitted token order changed")
-    ck.check("string='0.' + std_dev.string" in src and "if '.' not in std_dev.string" in src, "G-PROV", "uncertainty_tokenizer|short-notation-digits", tok.loc(), "v(u) notation reads u as 0.u when it has no decimal point", "the v(u) notation no longer scales the digits of u")
+    ck.check(plus_minus_sign_rewritten(ix), "G-TABLE", "uncertainty_tokenizer|unicode-plus-minus", tok.loc(), "± rewritten to +/-", "± is no longer rewritten to +/-")
+    # the three notations (bare +/-, parenthesised, value(error)) each yield a synthetic OP token with the text '+/-'; where
+    # a value and an error are yielded with it the order is value, operator, error (value = the token met first)
+    ops = lib.find(ix, tok, "(yield tokenize.TokenInfo(type=tokenlib.OP, string='+/-', **_K))", inline=False)
+    ck.check(len(ops) >= 3, "G-TABLE", "uncertainty_tokenizer|emits-plus-minus-operator", tok.loc(), "all three notations emit the +/- operator token", "a notation no longer emits the '+/-' operator token")
+    order_ok, triples = True, 0
+    tfn = ops[0][2] if ops else tok.node
+    first_def = lambda name: min([st.lineno for (v, k, st) in Defs(tfn).defs.get(name, [])] or [10 ** 9])
+    for y, _b, _fn in ops:
+        st = y._parent
+        block = next((getattr(st._parent, fld) for fld in ("body", "orelse", "finalbody") if any(x is st for x in getattr(st._parent, fld, []) or [])), [])
+        ys = [x.value for x in block if isinstance(x, ast.Expr) and isinstance(x.value, ast.Yield)]
+        if len(ys) > 1:
+            triples += 1
+            i = [j for j, x in enumerate(ys) if x is y][0]
+            names = [x.value.id if isinstance(x.value, ast.Name) else None for x in ys]
+            order_ok = order_ok and len(ys) == 3 and i == 1 and None not in (names[0], names[2]) and names[0] != names[2] and first_def(names[0]) < first_def(names[2])
+    ck.check(order_ok and triples >= 2, "G-PROV", "uncertainty_tokenizer|value-operator-error-order", tok.loc(), "tokens are emitted as value, +/-, error", "the emitted token order changed")
+    # v(u) notation: where the error token has no decimal point (and only there) it is rebuilt with the text '0.' + its digits
+    short = lib.find(ix, tok, "tokenize.TokenInfo(string='0.' + _S.string, **_K)", inline=False)
+    oks = len(short) == 1 and shape.holds_at(short[0][0], short[0][2], lambda a: _m(a, f"'.' in {short[0][1]['_S']}.string") is not None, False) \
+        and short[0][1]["_S"] in _flow_into(short[0][2], [y.value for y in ast.walk(short[0][2]) if isinstance(y, ast.Yield) and y.value is not None])
+    ck.check(oks, "G-PROV", "uncertainty_tokenizer|short-notation-digits", tok.loc(), "v(u) notation reads u as 0.u when it has no decimal point", "the v(u) notation no longer scales the digits of u")
 
     # ------------------------------------------------------------ formatter interface (shared with C09)
     interface_rule(ck, ix)
